@@ -2,6 +2,7 @@ import Proofs.KeysString
 import Proofs.KeysRoundTrip
 import Proofs.KeysDerCanon
 import Proofs.KeysInst
+import Proofs.KeysInstGroup
 /-!
 # C08 — public keys are accepted iff they encode a valid point of the right group
 
@@ -115,6 +116,42 @@ theorem from_string_rejects_malformed_model (c : Curve) (hc : c ∈ Gen.curveTab
     (validate : Bool) (e : PyErr) (h : VK.fromString KeysWire.modelExt c s validate = .error e) : e = .malformedPoint := by
   have hodd : c.p % 2 = 1 := (table_p_odd _ hc).1
   exact from_string_rejects_malformed KeysWire.modelExt c hp.pos (sqrtSpec_modelExt c.p hp (by omega)) s validate e h
+
+/-! ### the subgroup clause in group terms (Mathlib's point group, `InSubgroup` = "(x, y) is a point of ⟨G⟩")
+
+FULL statement of C08 for `from_string`, validation on:
+  `accepted ⇔ Encodes ∧ x, y < p ∧ InSubgroup`, and the key is the encoded point.
+* `from_string_accepts_iff_subgroup_cofactor_one`: PROVED for the 16 cofactor-1 curves of the table (hypotheses: p prime,
+  n prime, #E(𝔽_p) = n — the SEC 2 / FIPS / RFC 5639 facts).
+* `from_string_accepts_subgroup_points`: the ⇐ half PROVED for all 17 curves (cofactor 4 included; no #E hypothesis):
+  every encoding of a point of ⟨G⟩ is accepted.
+* the ⇒ half for cofactor ≠ 1 is FALSE on the unchanged code (open known finding K2: the `example` below exhibits
+  accepted points of order 2 and 2n on SECP112r2), so for SECP112r2 only `from_string_accepts_iff_model_partial` (with the
+  code's own subgroup test) is available. -/
+
+theorem from_string_accepts_subgroup_points (c : Curve) (hc : c ∈ Gen.curveTable) [Fact c.p.Prime] (hn : c.n.Prime)
+    (s : Bytes) (x y : Nat) (henc : Encodes (Util.orderlen c.p) s x y) (hx : x < c.p) (hy : y < c.p)
+    (hsub : InSubgroup c (Named.checked_of_mem hc) x y) :
+    VK.fromString KeysWire.modelExt c s true = .ok ⟨c, x, y⟩ := by
+  have hp : c.p.Prime := Fact.out
+  exact (from_string_accepts_iff_partial KeysWire.modelExt c hp (table_p_odd _ hc).1 (table_p_odd _ hc).2
+    (sqrtSpec_modelExt c.p hp (by have := (table_p_odd _ hc).1; omega)) s ⟨c, x, y⟩).mpr
+    ⟨rfl, henc, validPoint_of_inSubgroup c (Named.checked_of_mem hc) hn x y hx hy hsub⟩
+
+theorem from_string_accepts_iff_subgroup_cofactor_one (c : Curve) (hc : c ∈ Gen.curveTable) [Fact c.p.Prime]
+    (hn : c.n.Prime) (hh : c.h = 1)
+    (hcard : Nat.card (Jac.Grp ((c.a : ℤ) : ZMod c.p) ((c.b : ℤ) : ZMod c.p)) = c.n) (s : Bytes) (k : VK) :
+    VK.fromString KeysWire.modelExt c s true = .ok k ↔
+      k.curve = c ∧ Encodes (Util.orderlen c.p) s k.x k.y ∧ k.x < c.p ∧ k.y < c.p ∧
+        InSubgroup c (Named.checked_of_mem hc) k.x k.y := by
+  have hp : c.p.Prime := Fact.out
+  rw [from_string_accepts_iff_model_partial c hc hp]
+  constructor
+  · rintro ⟨h1, h2, h3, h4, h5, h6⟩
+    exact ⟨h1, h2, h3, h4, inSubgroup_of_validPoint c (Named.checked_of_mem hc) hn hcard k.x k.y ⟨h3, h4, h5, h6⟩⟩
+  · rintro ⟨h1, h2, h3, h4, h5⟩
+    obtain ⟨_, _, v3, v4⟩ := validPoint_of_inSubgroup c (Named.checked_of_mem hc) hn k.x k.y h3 h4 h5
+    exact ⟨h1, h2, h3, h4, v3, v4⟩
 
 /-! ### the DER / PEM wrapper -/
 
